@@ -8,6 +8,8 @@ use std::sync::Arc;
 pub use cache_manager::get_cache;
 use cas_types::{ChunkRange, Key};
 pub use disk::test_utils::*;
+#[cfg(any(kani, xet_verif))]
+pub use disk::verif_hooks;
 pub use disk::DiskCache;
 use error::ChunkCacheError;
 use mockall::automock;
